@@ -118,7 +118,6 @@ impl Decode<'_> for ErrorCode {
     proof { let b = raw_value[2]; assert(b & 0x07 == b % 8) by (bit_vector); }
 //@before "if vx_str_len(reason)"
     proof {
-        broadcast use vstd::utf8::group_utf8_lib;
         assert(reason.spec_bytes() == vstd::utf8::encode_utf8(reason@));
     }
 //@spec
@@ -251,4 +250,64 @@ pub proof fn lemma_algorithm_ext(a: Algorithm, b: Algorithm)
     ensures a == b,
 {
     if a.params is Some { axiom_arc_vec_ext(a.params->Some_0, b.params->Some_0); }
+}
+
+// ---------------------------------------------------------------- strings.rs: QuotedString (RFC 3261 quoted-string / qdtext)
+// The grammar check (crate quoted_string_parser) and the trimming helpers (char iterators with rev/enumerate) are outside
+// the verifier's dialect: `formatted_quoted_string_from` is trusted with an uninterpreted meaning. Everything around it is verified.
+pub uninterp spec fn qs_valid(s: Seq<char>) -> bool;
+pub uninterp spec fn qs_trim(s: Seq<char>) -> Seq<char>;
+#[verifier::external_body]
+pub fn formatted_quoted_string_from(s: &str) -> (r: Result<&str, StunError>)
+    ensures r is Ok <==> qs_valid(s@), r is Ok ==> r->Ok_0@ == qs_trim(s@),
+{ unimplemented!() }
+//@item! stun_rs :: mod strings > struct QuotedString
+impl QuotedString {
+//@item stun_rs :: mod strings > impl QuotedString > fn new
+//@tags C19 C03
+//@sig
+    pub fn new(value: &str) -> (r: Result<Self, StunError>)
+//@sub "value.as_ref()" => "value"
+//@sub "String::from(val)" => "vx_string_from(val)"
+//@spec
+    ensures r is Ok <==> qs_valid(value@), r is Ok ==> r->Ok_0.0@ == qs_trim(value@),
+//@end
+//@item stun_rs :: mod strings > impl QuotedString > fn as_str
+//@tags C19
+//@spec
+    ensures r@ == self.0@,
+//@end
+}
+// `&str != &str` compares contents
+#[verifier::external_body]
+pub fn vx_str_ne(a: &str, b: &str) -> (r: bool) ensures r == (a@ != b@) { a != b }
+impl<'a> Decode<'a> for QuotedString {
+//@item stun_rs :: mod strings > impl<'a> crate::Decode<'a> for QuotedString > fn decode
+//@tags C01 C02 C03
+//@sub "QuotedString::try_from(str)?" => "QuotedString::new(str)?"
+//@sub "quoted.as_str() != str" => "vx_str_ne(quoted.as_str(), str)"
+//@sub "str.len()" => "vx_str_len(str)"
+//@spec
+    // accepted: valid UTF-8 that is already the bare quoted text (no surrounding quotes / white space)
+    ensures r is Ok <==> vstd::utf8::valid_utf8(raw_value@) && qs_ok(vstd::utf8::decode_utf8(raw_value@)),
+        r is Ok ==> r->Ok_0.1 == raw_value@.len() && vstd::utf8::encode_utf8(r->Ok_0.0.0@) == raw_value@,
+//@before "let quoted"
+    proof {
+        assert(vstd::utf8::encode_utf8(str@) == raw_value@);
+        vstd::utf8::encode_utf8_decode_utf8(str@);
+    }
+//@end
+}
+pub open spec fn qs_ok(s: Seq<char>) -> bool { qs_valid(s) && qs_trim(s) == s }
+impl Encode for QuotedString {
+//@item stun_rs :: mod strings > impl Encode for QuotedString > fn encode
+//@tags C01 C02 C14
+//@sub "self.as_str().len()" => "vx_str_len(self.as_str())"
+//@spec
+    ensures final(raw_value)@.len() == old(raw_value)@.len(),
+        r is Ok <==> old(raw_value)@.len() >= vstd::utf8::encode_utf8(self.0@).len(),
+        r is Ok ==> r->Ok_0 == vstd::utf8::encode_utf8(self.0@).len()
+            && final(raw_value)@.subrange(0, r->Ok_0 as int) == vstd::utf8::encode_utf8(self.0@)
+            && forall|i: int| r->Ok_0 <= i < old(raw_value)@.len() ==> final(raw_value)@[i] == old(raw_value)@[i],
+//@end
 }
